@@ -89,7 +89,7 @@ def r1_r2_r3(ctx):
 
     def line(args, kids=blocks, G=None, lookups=None, switch=False):
         summ, G_ = _db(kids, lookups, G)
-        tr = _traces(ctx, b, args, self_obj=Opaque("self", "obj"), summaries=summ, overrides={("constants", "always_return_list"): switch})
+        tr = _traces(ctx, b, args, self_obj=Opaque("self", "FeatureDB"), summaries=summ, overrides={("constants", "always_return_list"): switch})
         ctx.require(len(tr) == 1, "bed12 forks on concrete input (%d paths)" % len(tr))
         t = tr[0]
         return (t.result[1].split("\t") if t.result[0] == "return" and isinstance(t.result[1], str) else ("raise", t.result[1])), t
@@ -176,7 +176,7 @@ def r4(ctx):
         for label, v in (("an id", "gene1"), ("a Feature", _gene())):
             lk = []
             summ, G = _db(blocks, lk)
-            tr = _traces(ctx, f, mk(f, v), self_obj=Opaque("self", "obj") if is_method else None, summaries=summ)
+            tr = _traces(ctx, f, mk(f, v), self_obj=Opaque("self", "FeatureDB") if is_method else None, summaries=summ)
             outs[label] = sorted({(t.result[0], t.result[1] if isinstance(t.result[1], (str, int)) else repr(t.result[1])) for t in tr})
             if label == "an id":
                 ok = all(o[0] == "return" for o in outs[label])
@@ -185,7 +185,7 @@ def r4(ctx):
                        detail=None if ok else "with an id string this object reaches attribute access (.start/.stop) -> AttributeError")
         if qual.endswith("bed12") and is_method:
             summ, G = _db({}, [])
-            tr = _traces(ctx, f, mk(f, "gene1"), self_obj=Opaque("self", "obj"), summaries=summ)
+            tr = _traces(ctx, f, mk(f, "gene1"), self_obj=Opaque("self", "FeatureDB"), summaries=summ)
             ok = all(t.result[0] == "return" for t in tr)
             ctx.ob("R4", ok, "`bed12` given an id of a feature without block children still works on the looked-up feature", func=f,
                    sig="bed12('gene1') without blocks -> %s" % ("a result" if ok else sorted({(t.result[0], t.result[1]) for t in tr if t.result[0] != "return"})),
@@ -204,7 +204,7 @@ def switch_restored(ctx, rule="R2"):
     for initial in (False, True):
         for nf in ("ID", "absent"):
             summ, G_ = _db(blocks, None, None)
-            tr = _traces(ctx, b, {fp: _gene(), "name_field": nf}, self_obj=Opaque("self", "obj"), summaries=summ, overrides={("constants", "always_return_list"): initial})
+            tr = _traces(ctx, b, {fp: _gene(), "name_field": nf}, self_obj=Opaque("self", "FeatureDB"), summaries=summ, overrides={("constants", "always_return_list"): initial})
             ctx.require(len(tr) == 1, "bed12 forks on concrete input (%d paths)" % len(tr))
             sw = [e for e in tr[0].events if e[0] == "setglobal" and e[2] == "always_return_list"]
             ok = (not sw) or sw[-1][3] is initial
